@@ -309,13 +309,23 @@ impl RuntimeData {
         #[cfg(feature = "verif-hooks")]
         crate::verif::gc_started();
         // mark all roots for collection
+        //
+        // an object is enqueued once: when it turns from White to Gray. Objects held by a guard
+        // keep their Protected marker
         let mut progress_tracker = Vec::with_capacity(self.value_stack.len());
+        macro_rules! enqueue_root {
+            ($obj: expr) => {
+                let t = $obj.as_mut();
+                if matches!(t.marker, GcMarker::White) {
+                    t.marker = GcMarker::Gray;
+                    progress_tracker.push(t);
+                }
+            };
+        }
         for val in self.value_stack.iter() {
             if let Value::Object(mut t) = val {
                 unsafe {
-                    let t = t.as_mut();
-                    t.marker = GcMarker::Gray;
-                    progress_tracker.push(t);
+                    enqueue_root!(t);
                 }
             }
         }
@@ -323,10 +333,36 @@ impl RuntimeData {
         for val in self.global_vars.iter() {
             if let Value::Object(mut t) = val {
                 unsafe {
-                    let t = t.as_mut();
-                    t.marker = GcMarker::Gray;
-                    progress_tracker.push(t);
+                    enqueue_root!(t);
                 }
+            }
+        }
+        // guarded objects are in use by the holder of the guard, together with their children;
+        // the closures of the active call frames are in use by the running functions
+        for object in self.object_list.iter_mut() {
+            unsafe {
+                let t = object.as_mut();
+                match (&t.marker, &t.body) {
+                    (GcMarker::Protected, _) => progress_tracker.push(t),
+                    (GcMarker::White, CaoLangObjectBody::Closure(c))
+                        if self
+                            .call_stack
+                            .iter()
+                            .any(|frame| std::ptr::eq(frame.closure, c)) =>
+                    {
+                        t.marker = GcMarker::Gray;
+                        progress_tracker.push(t);
+                    }
+                    _ => {}
+                }
+            }
+        }
+        // open upvalues are linked into a list that the VM walks when a scope ends
+        let mut upvalue = self.open_upvalues;
+        while let Some(mut t) = NonNull::new(upvalue) {
+            unsafe {
+                upvalue = t.as_ref().as_upvalue().map_or(std::ptr::null_mut(), |u| u.next);
+                enqueue_root!(t);
             }
         }
 
